@@ -72,6 +72,19 @@ pub enum IoKindResult {
     Retry,
 }
 
+/// How many times a page read or write that was interrupted or came back short is issued before it
+/// is reported as failed. A transfer that stays short makes no progress (the page straddles
+/// `RLIMIT_FSIZE`, a quota or the end of a full device, and no errno is reported for the part that
+/// fit), so reissuing the same command forever would hang the caller.
+pub(crate) const MAX_IO_ATTEMPTS: usize = 16;
+
+pub(crate) fn short_io_error() -> std::io::Error {
+    std::io::Error::new(
+        std::io::ErrorKind::WriteZero,
+        "page I/O kept being interrupted or transferring less than a page",
+    )
+}
+
 impl IoKind {
     pub fn unwrap_buf(self) -> FatPage {
         match self {
